@@ -287,9 +287,11 @@ pub fn run_schedule(rec: &mut Rec, seed: u64, run: u64, line: &str) {
             let hop = SwapOperation::TerraSwap { offer_asset_info: a.info(), ask_asset_info: b.info() };
             let route = SwapRoute { offer_asset_info: a.info(), ask_asset_info: b.info(), swap_operations: vec![hop.clone()] };
             let registered = g.entry("pair", &sset).is_some();
+            let before = reported(&g.w, &g.hub.pool_router, &a, &b, &vec![hop.clone()]);
             let rs = g.w.exec(&owner, &g.hub.pool_router.clone(), &white_whale_std::pool_network::router::ExecuteMsg::AddSwapRoutes { swap_routes: vec![route] }, &[]);
+            let after = reported(&g.w, &g.hub.pool_router, &a, &b, &vec![hop.clone()]);
             rec.emit(json!({"ev": "route_add", "run": run, "step": step, "actor": "owner", "args": {"perm": sset, "kind": kind},
-                "res": rs.tag(), "err": jerr(&rs.err()), "dpre": "-", "dpost": "-", "obs": {"registered": registered}}));
+                "res": rs.tag(), "err": jerr(&rs.err()), "dpre": "-", "dpost": "-", "obs": {"registered": registered, "reported_before": before, "reported": after}}));
             step += 1;
             let u = g.user.clone();
             let rs = match &a {
@@ -313,15 +315,26 @@ pub fn run_schedule(rec: &mut Rec, seed: u64, run: u64, line: &str) {
             let (a, b, c) = (g.asset(&path[0]), g.asset(&path[1]), g.asset(&path[2]));
             let hops = vec![SwapOperation::TerraSwap { offer_asset_info: a.info(), ask_asset_info: b.info() },
                             SwapOperation::TerraSwap { offer_asset_info: b.info(), ask_asset_info: c.info() }];
-            let route = SwapRoute { offer_asset_info: a.info(), ask_asset_info: c.info(), swap_operations: hops };
+            let before = reported(&g.w, &g.hub.pool_router, &a, &c, &hops);
+            let route = SwapRoute { offer_asset_info: a.info(), ask_asset_info: c.info(), swap_operations: hops.clone() };
             let reg = [g.entry("pair", &vec![path[0].clone(), path[1].clone()]).is_some(), g.entry("pair", &vec![path[1].clone(), path[2].clone()]).is_some()];
             let rs = g.w.exec(&owner, &g.hub.pool_router.clone(), &white_whale_std::pool_network::router::ExecuteMsg::AddSwapRoutes { swap_routes: vec![route] }, &[]);
+            let after = reported(&g.w, &g.hub.pool_router, &a, &c, &hops);
             rec.emit(json!({"ev": "route_add2", "run": run, "step": step, "actor": "owner", "args": {"path": path, "kind": kind},
-                "res": rs.tag(), "err": jerr(&rs.err()), "dpre": "-", "dpost": "-", "obs": {"registered": reg}}));
+                "res": rs.tag(), "err": jerr(&rs.err()), "dpre": "-", "dpost": "-", "obs": {"registered": reg, "reported_before": before, "reported": after}}));
             step += 1;
         } } }
     }
     let _ = Uint128::zero();
+}
+
+/// what the router's SwapRoute query reports for (offer, ask), compared with the operations just offered to it
+fn reported(w: &World, router: &cosmwasm_std::Addr, offer: &A, ask: &A, ops: &Vec<SwapOperation>) -> &'static str {
+    match w.query::<Vec<SwapOperation>, _>(router, &white_whale_std::pool_network::router::QueryMsg::SwapRoute { offer_asset_info: offer.info(), ask_asset_info: ask.info() }) {
+        Ok(v) if &v == ops => "same",
+        Ok(_) => "other",
+        Err(_) => "none",
+    }
 }
 
 pub fn main(seed: u64, first: u64, runs: u64, out: &str, sched: Option<&String>) {
